@@ -267,38 +267,69 @@ def _r3(chk, repo):
     chk.add("C18-R3", f"{ss.qual}.observe", not problems, site(repo, ob), "restrict iff grids equal, else quadratic interpolation; then observation map", "; ".join(problems), ob)
     td = repo.cls(f"{PDE}:TimeDependentLinearPDE")
     ob = repo.method(td, "observe")[1]
-    g = CFG(ob)
     sol = func_params(ob)[1]
-    restr = [n for n in g.nodes if n.ast is not None and _norm(n.ast) == f"solution_obs={sol}[...,-1]"]
-    interp = [n for n in g.nodes if n.ast is not None and _norm(n.ast) == f"solution_obs=scipy.interpolate.RectBivariateSpline(self.grid_sol,self.time_steps,{sol})(self.grid_obs,self._time_obs)"]
-    omap = [n for n in g.nodes if n.ast is not None and _norm(n.ast) == "solution_obs=self.observation_map(solution_obs)"]
-    problems = []
-    if len(restr) != 1:
-        problems.append("final-time restriction not found")
-    else:
-        gs = {(_norm(t.ast), lab) for t, lab in g.guards_of(restr[0])}
-        if ("self.grids_equal", "T") not in gs or ("np.all(self.time_steps[-1:]==self._time_obs)", "T") not in gs:
-            problems.append("restriction to the last stored level is not limited to coinciding grids AND observation time == final time")
-    if len(interp) != 1:
-        problems.append("space-time interpolation (grid_sol, time_steps) -> (grid_obs, time_obs) not found")
-    else:
-        # reachable whenever either condition fails
-        for cond in ("self.grids_equal", "np.all(self.time_steps[-1:]==self._time_obs)"):
-            ts = [t for t in g.tests() if _norm(t.ast) == cond]
-            if not ts or interp[0].id not in g.reachable_from([m for m, lab in g.succ[ts[0].id] if lab == "F"]):
-                problems.append(f"interpolation is not used when `{cond}` is false")
-    if len(omap) != 1 or (restr and interp and not (g.reaches(restr[0], omap[0]) and g.reaches(interp[0], omap[0]))):
-        problems.append("observation map is not applied after both branches")
-    rets = g.returns()
-    if len(rets) != 1 or _norm(rets[0].ast.value) != "solution_obs":
-        problems.append("does not return the observed solution")
-    chk.add("C18-R3", f"{td.qual}.observe", not problems, site(repo, ob), "restrict iff grids equal and time_obs == final time, else bivariate spline; then observation map",
-            "; ".join(problems), ob)
+    # decision table over (grids coincide, observation time == final time, observation map given), helpers inlined; the refusal of 2-D/3-D solutions
+    # on the interpolation path is a separate test and is taken as "1-D in space" here
+    from ..pathtable import walk_paths
+    obv = canon_fn(repo, td, ob, 2)
+    problems, und = [], []
+    SPL = f"scipy.interpolate.RectBivariateSpline(self.grid_sol,self.time_steps,{sol})(self.grid_obs,self._time_obs)"
+    for eq, fin, om, one in itertools.product((True, False), repeat=4):
+        val = {_ct("len(self._time_obs)==1"): one, _ct("len(self._time_obs)!=1"): not one, _ct("self.grids_equal"): eq, _ct("np.all(self.time_steps[-1:]==self._time_obs)"): fin, _ct("(self.time_steps[-1:]==self._time_obs).all()"): fin,
+               _ct("self.observation_map is not None"): om, _ct("self.observation_map is None"): not om,
+               _ct(f"len({sol}.shape)>2"): False, _ct(f"{sol}.ndim>2"): False, _ct(f"len({sol}.shape)<=2"): True, _ct(f"{sol}.ndim<=2"): True}
+        ends = walk_paths(obv, val, pn)
+        base_e = f"{sol}[...,-1]" if (eq and fin) else SPL
+        want_src = f"self.observation_map({base_e})" if om else base_e
+        want = _ct(f"{want_src}.squeeze()" if one else want_src)         # a single observation time is squeezed out
+        for kind, res in ends:
+            if kind in ("unknown", "loop"):
+                und.append(str(res)[:120])
+                continue
+            got = _ct(unparse(res)) if kind == "return" else kind
+            if got == want:
+                continue
+            if (eq and fin) and "RectBivariateSpline" in got:
+                problems.append("the final-time restriction is not used on coinciding grids at the final time")
+            elif not (eq and fin) and "RectBivariateSpline" not in got:
+                problems.append("restriction to the last stored level is not limited to coinciding grids AND observation time == final time "
+                                f"(interpolation is not used when {'the grids differ' if not eq else 'the observation time is not the final time'})")
+            elif om and "self.observation_map(" not in got:
+                problems.append("observation map is not applied after both branches")
+            else:
+                problems.append(f"[grids equal={eq}, final time={fin}, observation map={om}] returns `{got[:120]}`")
+    problems = sorted(set(problems))
+    chk.decide("C18-R3", f"{td.qual}.observe", not problems and not und, bool(problems) or not und, site(repo, ob),
+               "restrict iff grids equal and time_obs == final time, else bivariate spline; then observation map", "; ".join(problems or und[:2]), ob)
     init = repo.method(td, "__init__")[1]
-    t = _norm(init)
-    ok = "time_obs=time_steps[-1:]" in t and "time_obs=time_steps" in t and "self._time_obs=time_obs" in t and "time_obs.lower()=='final'" in t and "time_obs.lower()=='all'" in t
-    chk.add("C18-R3", f"{td.qual}.__init__/time_obs", ok, site(repo, init), "'final' -> last level, 'all' -> all levels, else explicit times; other strings refused",
-            "time_obs option dispatch changed", init)
+    iv = canon_fn(repo, td, init, 1)
+    ts, to = func_params(init)[2:4]
+    bad, und = [], []
+    cases = [("None", dict(none=True), None), ("'final'", dict(none=False, s=True, final=True, all=False), f"{ts}[-1:]"),
+             ("'all'", dict(none=False, s=True, final=False, all=True), ts), ("another string", dict(none=False, s=True, final=False, all=False), None),
+             ("explicit times", dict(none=False, s=False), to)]
+    for label, c, want in cases:
+        val = {_ct(f"{to} is None"): c["none"], _ct(f"{to} is not None"): not c["none"]}
+        if "s" in c:
+            val[_ct(f"isinstance({to},str)")] = c["s"]
+        for key, lit in (("final", "final"), ("all", "all")):
+            if key in c:
+                val[_ct(f"{to}.lower()=='{lit}'")] = c[key]
+                val[_ct(f"{to}.lower()!='{lit}'")] = not c[key]
+        for kind, res in walk_paths(iv, val, pn):
+            if kind in ("unknown", "loop"):
+                und.append(f"[time_obs = {label}] {str(res)[:100]}")
+            elif want is None:
+                if kind != "raise":
+                    bad.append(f"time_obs = {label} is not refused")
+            else:
+                env = res if kind == "fall" else getattr(res, "_env", {})
+                got = env.get("self._time_obs")
+                if kind == "raise" or got is None or _ct(unparse(got)) != _ct(want):
+                    bad.append(f"time_obs = {label} stores `{unparse(got) if got is not None else kind}`, expected `{want}`")
+    chk.decide("C18-R3", f"{td.qual}.__init__/time_obs", not bad and not und, bool(bad) or not und, site(repo, init),
+               "'final' -> last level, 'all' -> all levels, else explicit times; other strings refused",
+               "time_obs option dispatch changed: " + "; ".join(sorted(set(bad)) or und[:2]), init)
 
 
 def _r4(chk, repo):
